@@ -42,6 +42,9 @@ func (r *RunResult) stallAllowanceNs(sc *Scenario) int64 {
 	if sc.Cost.SetupStallPct > 0 {
 		a += int64(sc.Cost.SetupStallMaxUs) * 1000
 	}
+	if sc.Cost.TimerFireStallPct > 0 {
+		a += int64(sc.Cost.TimerFireStallMaxUs) * 1000
+	}
 	return a
 }
 
